@@ -110,6 +110,23 @@ def entries(thorough: bool) -> Dict[str, dict]:
     E["drt:mrq-fit"] = {"call": drt("mrq-fit")}
     E["drt:bht"] = {"call": drt("bht", num_samples=200, num_attempts=3), "seed": 11}
 
+    def drt_mrq_with_fit(foreign: bool):
+        # the documented fit= option: with the fitted circuit itself, and with another object of the same description (refused with
+        # ValueError on the unchanged tree - if a result comes back instead, it must be as consistent as any other)
+        def call(st, d):
+            unfitted = st["parse_cdc"](MRQ_CDC)
+            fit = st["fit"](st["parse_cdc"](MRQ_CDC), d, method="least_squares", weight="boukamp", max_nfev=200, num_procs=1)
+            try:
+                return [st["drt"](d, method="mrq-fit", num_procs=1, circuit=unfitted if foreign else fit.circuit, fit=fit)], (unfitted if foreign else None)
+            except ValueError:
+                if not foreign:
+                    raise
+                return [], unfitted
+        return call
+
+    E["drt:mrq-fit:fit=own-circuit"] = {"call": drt_mrq_with_fit(False)}
+    E["drt:mrq-fit:fit=foreign-circuit"] = {"call": drt_mrq_with_fit(True)}
+
     def fit(method, weight, max_nfev=200):
         def call(st, d):
             c = st["parse_cdc"](FIT_CDC)
